@@ -38,6 +38,11 @@ fn main() {
             std::process::exit(2);
         }
     };
+    // replay tier first: saved shrunk cases, no generator involved
+    let (ran, skipped, bad) = common::regression_tier(&args[1], tier == Tier::Thorough);
+    if ran + skipped > 0 {
+        println!("{} replay tier: {ran} saved case(s) re-run, {skipped} skipped (other program set), {} violated", args[1], bad.len());
+    }
     let code = match args[1].as_str() {
         "C01" => c01::run(tier),
         "C02" => c02::run(tier),
@@ -63,5 +68,5 @@ fn main() {
             2
         }
     };
-    std::process::exit(code);
+    std::process::exit(if !bad.is_empty() && code == 0 { 1 } else { code });
 }
